@@ -58,14 +58,15 @@ C07(e) ==
 DOf(e) == IF e.terms THEN Cardinality((OldReach(e) \ ReachT(e.new)) \cup (ReachT(e.new) \ OldReach(e))) ELSE e.d
 C15(e) ==
   IF ~e.counted THEN {}
-  \* (recorded finding C15-different-heights: when the two roots record different heights the level-by-level walk opens nodes
-  \* that both versions contain; identified by the heights alone)
-  ELSE (IF e.eloads > 2 * DOf(e) + 2
-        THEN {V("C15", IF e.hasold /\ e.ho # e.hn THEN "entry diff of two versions of different heights reads more than 2*D+2 distinct nodes"
-                       ELSE "entry diff reads more than 2*D+2 distinct nodes")} ELSE {})
-       \cup (IF e.lres = "ok" /\ e.lloads > 2 * DOf(e) + 2
-             THEN {V("C15", IF e.hasold /\ e.ho # e.hn THEN "node diff of two versions of different heights reads more than 2*D+2 distinct nodes"
-                            ELSE "node diff reads more than 2*D+2 distinct nodes")} ELSE {})
+  \* (recorded finding C15-shifted-common-subtrees: a subtree that both versions contain, but at different places - another level
+  \* when the heights differ, other bounding keys when a node on the changed path gained or lost its first key - is not recognised by
+  \* the level-by-level walk and is descended along its edge. Nodes of that kind that were read are logged (eshift / lshift); the
+  \* bound is judged on the other reads, and an excess that they alone explain is reported under its own name)
+  ELSE (IF e.eloads - e.eshift > 2 * DOf(e) + 2 THEN {V("C15", "entry diff reads more than 2*D+2 distinct nodes")}
+        ELSE IF e.eloads > 2 * DOf(e) + 2 THEN {V("C15", "entry diff reads common subtrees that sit at different places in the two versions (more than 2*D+2 distinct nodes in all)")} ELSE {})
+       \cup (IF e.lres # "ok" THEN {}
+             ELSE IF e.lloads - e.lshift > 2 * DOf(e) + 2 THEN {V("C15", "node diff reads more than 2*D+2 distinct nodes")}
+             ELSE IF e.lloads > 2 * DOf(e) + 2 THEN {V("C15", "node diff reads common subtrees that sit at different places in the two versions (more than 2*D+2 distinct nodes in all)")} ELSE {})
        \cup (IF e.same /\ (e.eloads > 0 \/ e.lloads > 0) THEN {V("C15", "diff of a version with itself reads nodes")} ELSE {})
 
 Machine(e) == Run(InitDS(e.old, e.new, e.hasold, FALSE), e.cfg.layers, TRUE)
